@@ -15,6 +15,7 @@ the number of flagged edges (`FlagsShapeOK`) and checks that no two flagged edge
 import Spade.Proofs.AbsLemmas
 import Spade.Spec
 import Spade.Examples
+import Spade.Proofs.FlagInv
 namespace Spade
 open AState
 
@@ -82,5 +83,31 @@ theorem C04_remove_piece_result (a : AState) (p q : Pt) :
 
 /-- non-vacuity: a dumped CDT state with one constraint satisfies the state clauses -/
 example : exCdt.FlagsShapeOK ∧ exCdt.FlagsNoCross ∧ exCdt.flagCount = 1 := by decide
+
+
+/-! ### on the insertion model M (compared index for index with the implementation, flags included) -/
+
+/-- inserting a vertex never removes a constraint flag -/
+theorem C04_model_insert_keeps_flags (s t : St) (p : Pt) (d hint v : Nat)
+    (h : s.insertM p d hint = some (t, v)) (x : Nat) (hx : s.isFlag x = true) : t.isFlag x = true :=
+  St.insertM_keeps_flags s t p d hint v h x hx
+
+/-- "Inserting a vertex on a constraint edge replaces it by two constraint edges": after an
+insertion located on half-edge `eL`, the flagged edges are the old ones plus — exactly when `eL`
+was flagged — the two halves of the split; nothing else is flagged -/
+theorem C04_model_insert_on_edge_flags (s t : St) (p : Pt) (d hint v eL : Nat)
+    (hV0 : s.nV ≠ 0) (hV1 : s.nV ≠ 1) (hF : s.nF ≠ 1)
+    (hl : s.locateM p hint = some (.onEdge eL))
+    (h : s.insertM p d hint = some (t, v)) (x : Nat) :
+    t.isFlag x = (s.isFlag x || (s.isFlag eL &&
+      (decide (x / 2 = (s.insertOnEdge eL p d).2.2.1 / 2) || decide (x / 2 = (s.insertOnEdge eL p d).2.2.2 / 2)))) :=
+  St.insertM_on_edge_flags s t p d hint v eL hV0 hV1 hF hl h x
+
+/-- an insertion located in a face, on a vertex or outside the hull changes no flag -/
+theorem C04_model_insert_off_edge_flags (s t : St) (p : Pt) (d hint v : Nat)
+    (hV0 : s.nV ≠ 0) (hV1 : s.nV ≠ 1) (hF : s.nF ≠ 1)
+    (hl : ∀ e, s.locateM p hint ≠ some (.onEdge e))
+    (h : s.insertM p d hint = some (t, v)) : t.flag = s.flag :=
+  St.insertM_off_edge_flags s t p d hint v hV0 hV1 hF hl h
 
 end Spade
